@@ -505,6 +505,111 @@ func fromGo(v interface{}) (*Item, error) {
 	return nil, fmt.Errorf("unexpected decoded type %T", v)
 }
 
+// normItem is what an item reads back as under default decode options (the property's own
+// round-trip oracle, applied to the implementation; the Coq model has its own [norm]).
+func normItem(it *Item, o eopts, key bool) *Item {
+	zn := o.zeroAsNil && !key
+	switch it.K {
+	case KBool:
+		if zn && !it.B {
+			return &Item{K: KNil}
+		}
+	case KInt:
+		if it.I >= 0 {
+			if zn && it.I == 0 {
+				return &Item{K: KNil}
+			}
+			return &Item{K: KUint, U: uint64(it.I)}
+		}
+	case KUint:
+		if zn && it.U == 0 {
+			return &Item{K: KNil}
+		}
+	case KF32:
+		f := math.Float32frombits(uint32(it.U))
+		if zn && f == 0 {
+			return &Item{K: KNil}
+		}
+		return &Item{K: KF64, U: math.Float64bits(float64(f))}
+	case KF64:
+		if zn && math.Float64frombits(it.U) == 0 {
+			return &Item{K: KNil}
+		}
+	case KStr:
+		if zn && len(it.S) == 0 {
+			return &Item{K: KNil}
+		}
+		if o.stringToRaw && !key {
+			return &Item{K: KBytes, S: it.S}
+		}
+	case KBytes:
+		if key {
+			return &Item{K: KStr, S: it.S}
+		}
+	case KTime:
+		if it.Sec == -62135596800 && it.U == 0 {
+			return &Item{K: KNil}
+		}
+	case KArr:
+		out := &Item{K: KArr}
+		for _, x := range it.L {
+			out.L = append(out.L, normItem(x, o, false))
+		}
+		return out
+	case KMap:
+		out := &Item{K: KMap}
+		for _, kv := range it.M {
+			out.M = append(out.M, [2]*Item{normItem(kv[0], o, true), normItem(kv[1], o, false)})
+		}
+		sort.Slice(out.M, func(i, j int) bool { return out.M[i][0].Coq() < out.M[j][0].Coq() })
+		return out
+	}
+	return it
+}
+
+func minWidth(v uint64) int {
+	switch {
+	case v <= math.MaxUint8:
+		return 1
+	case v <= math.MaxUint16:
+		return 2
+	case v <= math.MaxUint32:
+		return 4
+	}
+	return 8
+}
+
+// shortestForm: the documented format writes integers and lengths in the smallest of 1/2/4/8 bytes.
+// Returns the expected total length of a top-level scalar's encoding, or -1 when not applicable.
+func shortestForm(it *Item, o eopts) int {
+	switch it.K {
+	case KInt:
+		if it.I == 0 && o.zeroAsNil {
+			return 1
+		}
+		if it.I < 0 {
+			return 1 + minWidth(uint64(-it.I))
+		}
+		return 1 + minWidth(uint64(it.I))
+	case KUint:
+		if it.U == 0 && o.zeroAsNil {
+			return 1
+		}
+		return 1 + minWidth(it.U)
+	case KStr, KBytes:
+		if len(it.S) == 0 {
+			return 1
+		}
+		return 1 + minWidth(uint64(len(it.S))) + len(it.S)
+	case KExt:
+		if len(it.S) == 0 {
+			return 2
+		}
+		return 2 + minWidth(uint64(len(it.S))) + len(it.S)
+	}
+	return -1
+}
+
 // ---------------------------------------------------------------- options
 
 type eopts struct{ zeroAsNil, stringToRaw bool }
@@ -755,12 +860,51 @@ func (c *ctx) skipCase(stream string, o dopts, in []byte, label string) (outcome
 	return raw, sw
 }
 
+// boundary sweep: every integer boundary (both signs, both Go kinds) and every length boundary
+func (c *ctx) boundaryItems() []*Item {
+	var out []*Item
+	for _, u := range intBoundaries {
+		out = append(out, &Item{K: KUint, U: u})
+		if u <= 1<<63-1 {
+			out = append(out, &Item{K: KInt, I: int64(u)})
+		}
+		if u <= 1<<63 && u > 0 {
+			out = append(out, &Item{K: KInt, I: -int64(u)})
+		}
+	}
+	for _, n := range []int{0, 1, 255, 256, 65535, 65536} {
+		b := bytes.Repeat([]byte{0x41}, n)
+		out = append(out, &Item{K: KStr, S: b}, &Item{K: KBytes, S: b}, &Item{K: KExt, U: 9, S: b})
+		arr := &Item{K: KArr}
+		e := &Item{K: KNil}
+		for i := 0; i < n; i++ {
+			arr.L = append(arr.L, e)
+		}
+		out = append(out, arr)
+		if n <= 256 {
+			m := &Item{K: KMap}
+			for i := 0; i < n; i++ {
+				m.M = append(m.M, [2]*Item{{K: KUint, U: uint64(i)}, {K: KBool, B: true}})
+			}
+			out = append(out, m)
+		}
+	}
+	return out
+}
+
 func (c *ctx) encStream(n int) [][]byte {
 	var encs [][]byte
-	for i := 0; i < n; i++ {
+	bnd := c.boundaryItems()
+	for i := 0; i < n+len(bnd); i++ {
 		big := i%12 == 0
-		it := randItem(c.r, 3, big)
-		if big {
+		var it *Item
+		if i >= n {
+			it = bnd[i-n]
+		} else {
+			it = randItem(c.r, 3, big)
+		}
+		if i >= n {
+		} else if big {
 			for it.K == KNil || it.K == KBool || it.K == KInt || it.K == KUint || it.K == KF32 || it.K == KF64 || it.K == KTime {
 				it = randItem(c.r, 3, big)
 			}
@@ -783,6 +927,11 @@ func (c *ctx) encStream(n int) [][]byte {
 			continue
 		}
 		cj["bytes"] = shortHex(out)
+		if want := shortestForm(it, o); want >= 0 && want != len(out) {
+			cj["want_len"] = want
+			cj["got_len"] = len(out)
+			c.sum.FailC("enc", "encode:width", "an integer or length was not written in the smallest of the 1/2/4/8-byte forms", cj)
+		}
 		id := c.next()
 		c.add(fmt.Sprintf("CEnc %d %s %s %s", id, o.Coq(), it.Coq(), coqBytes(out)))
 		// direct oracles (C01/C11 at the wire level): decode and raw-capture consume exactly the encoding
@@ -798,6 +947,15 @@ func (c *ctx) encStream(n int) [][]byte {
 			} else if dn.numread != len(out) {
 				cj["numread"] = dn.numread
 				c.sum.FailC("enc", "roundtrip:extent", "Decode(&interface{}) consumed a different number of bytes than were encoded", cj)
+			} else if got, err := fromGo(dn.val); err == nil && len(out) < 5000 {
+				if want := normItem(it, o, false).Coq(); got.Coq() != want {
+					g := got.Coq()
+					if len(g) > 400 {
+						g = g[:400] + "..."
+					}
+					cj["decoded"] = g
+					c.sum.FailC("enc", "roundtrip:value", "the decoded value differs from the encoded one beyond the documented normalisation", cj)
+				}
 			}
 		}
 		rw := realRaw(do, in)
